@@ -82,6 +82,12 @@ pub fn run(ctx: &mut Ctx) {
             ("iaca-purpose-only", registry(vec![(pki.reader_ca.clone(), TrustPurpose::Iaca)])),
             ("unrelated-reader-ca", registry(vec![(other_pki.reader_ca.clone(), TrustPurpose::ReaderCa)])),
             ("mixed", registry(vec![(pki.iaca.clone(), TrustPurpose::Iaca), (other_pki.reader_ca.clone(), TrustPurpose::ReaderCa), (pki.reader_ca.clone(), TrustPurpose::ReaderCa)])),
+            // the reader CA's certificate was renewed with the same key: the EXPIRED earlier issue / the NOT YET VALID next
+            // issue (same name, same key identifier) is listed before the current one
+            ("expired-twin-then-right-reader-ca", registry(vec![(pki::root_cert_valid(&pki.reader_ca_key, "CN=Test Reader CA,C=US", 71, 1_000_000_000, 1_100_000_000), TrustPurpose::ReaderCa), (pki.reader_ca.clone(), TrustPurpose::ReaderCa)])),
+            ("future-twin-then-right-reader-ca", registry(vec![(pki::root_cert_valid(&pki.reader_ca_key, "CN=Test Reader CA,C=US", 72, 4_000_000_000, 4_100_000_000), TrustPurpose::ReaderCa), (pki.reader_ca.clone(), TrustPurpose::ReaderCa)])),
+            ("iaca-then-right-reader-ca-as-iaca", registry(vec![(other_pki.reader_ca.clone(), TrustPurpose::ReaderCa), (pki.reader_ca.clone(), TrustPurpose::Iaca)])),
+            ("expired-twin-only", registry(vec![(pki::root_cert_valid(&pki.reader_ca_key, "CN=Test Reader CA,C=US", 71, 1_000_000_000, 1_100_000_000), TrustPurpose::ReaderCa)])),
         ];
         let kinds = [Ra::Absent, Ra::Authentic, Ra::SigFlip, Ra::OtherSession, Ra::OtherItems, Ra::UntrustedCa, Ra::NoX5, Ra::GarbageX5, Ra::AttachedPayload, Ra::WrongAlg, Ra::OtherKey, Ra::ImpostorThenGenuine, Ra::GenuineThenCa, Ra::OtherSessionAttached, Ra::P384ThenSelfMade];
         let ncases = if ctx.thorough { 120 } else { 40 };
@@ -92,11 +98,16 @@ pub fn run(ctx: &mut Ctx) {
             vec![Ra::UntrustedCa, Ra::Authentic], vec![Ra::Authentic, Ra::OtherSession], vec![Ra::Authentic, Ra::Authentic, Ra::OtherItems], vec![Ra::AttachedPayload, Ra::Authentic],
             vec![Ra::Authentic, Ra::ImpostorThenGenuine], vec![Ra::OtherKey, Ra::Authentic, Ra::Authentic], vec![Ra::P384ThenSelfMade], vec![Ra::Authentic, Ra::P384ThenSelfMade],
         ];
+        // … and the single-request kinds that matter under each of the registries above (index into `regs`)
+        let mut patterns: Vec<(usize, Vec<Ra>)> = patterns.into_iter().map(|p| (0, p)).collect();
+        for ri in 1..regs.len() { for k in [Ra::Authentic, Ra::UntrustedCa, Ra::OtherKey] { patterns.push((ri, vec![k])); } }
+        for ri in 5..regs.len() { patterns.push((ri, vec![Ra::Authentic, Ra::Authentic])); patterns.push((ri, vec![Ra::Authentic, Ra::Absent])); }
         let ncases = ncases + patterns.len();
         for ci in 0..ncases {
-            let pattern: Option<&Vec<Ra>> = if ci >= ncases - patterns.len() { Some(&patterns[ci - (ncases - patterns.len())]) } else { None };
+            let pattern_full: Option<&(usize, Vec<Ra>)> = if ci >= ncases - patterns.len() { Some(&patterns[ci - (ncases - patterns.len())]) } else { None };
+            let pattern: Option<&Vec<Ra>> = pattern_full.map(|p| &p.1);
             let ndr = match pattern { Some(p) => p.len(), None => if ci < kinds.len() { 1 } else { rng.gen_range(1..=3) } };
-            let (reg_name, reg) = &regs[if pattern.is_some() { 0 } else if ci < kinds.len() * 2 { ci % 2 * (ci / kinds.len()) } else { rng.gen_range(0..regs.len()) }];
+            let (reg_name, reg) = &regs[if let Some(p) = pattern_full { p.0 } else if ci < kinds.len() * 2 { ci % 2 * (ci / kinds.len()) } else { rng.gen_range(0..regs.len()) }];
             let mut doc_requests = vec![];
             let mut model_reqs = vec![];
             let mut desc_kinds = vec![];
@@ -160,10 +171,15 @@ pub fn run(ctx: &mut Ctx) {
                                         let sig = leaf.signature.as_bytes().and_then(|b| Signature::from_der(b).ok());
                                         reg.anchors.iter().any(|a| a.purpose == TrustPurpose::ReaderCa
                                             && a.certificate.tbs_certificate.subject == leaf.tbs_certificate.issuer
+                                            && { let now = std::time::SystemTime::now();
+                                                 a.certificate.tbs_certificate.validity.not_before.to_system_time() <= now && now <= a.certificate.tbs_certificate.validity.not_after.to_system_time() }
                                             && match (&sig, a.certificate.tbs_certificate.subject_public_key_info.to_der().ok().and_then(|d| p256::PublicKey::from_public_key_der(&d).ok())) {
                                                 (Some(s), Some(pk)) => VerifyingKey::from(&pk).verify(&tbs, s).is_ok(), _ => false })
                                     }).unwrap_or(false);
-                                    let cv = ValidationRuleset::MdlReaderOneStep.validate(&chain, reg).success() && indep;
+                                    // for the two reader certificates made by Pki::generate (conforming leaves by construction) the verdict
+                                    // is the independent one alone: an anchor of the right purpose, name and key within its validity period
+                                    let known_good_leaf = first_der == pki.reader.to_der().unwrap() || first_der == other_pki.reader.to_der().unwrap();
+                                    let cv = if known_good_leaf { indep } else { ValidationRuleset::MdlReaderOneStep.validate(&chain, reg).success() && indep };
                                     let der = match &v { Value::Bytes(b) => b.clone(), Value::Array(a) => a[0].as_bytes().unwrap().clone(), _ => vec![] };
                                     let vk = x509_cert::Certificate::from_der(&der).ok().and_then(|c| c.tbs_certificate.subject_public_key_info.to_der().ok())
                                         .and_then(|d| { use p256::pkcs8::DecodePublicKey; p256::PublicKey::from_public_key_der(&d).ok() }).map(|pk| VerifyingKey::from(&pk));
